@@ -9,7 +9,7 @@ from hgmon.build import build_program
 
 LEVEL = "exploration"
 RULE = (
-    "random histories (4-14 operations) over generated graphs and their nodes: bind, unbind, select, with_entrypoint, "
+    "random histories (4-14 operations) over generated graphs (DAGs with a nested group, gated programs, a cyclic loop) and their nodes: bind, unbind (also their argument-less forms and add_nodes()), select, with_entrypoint, "
     "add_nodes, as_node on any live graph; with_name, with_inputs (incl. swaps), with_outputs, map_over on any live "
     "node; mutation of dicts passed to bind and of returned graph.nodes copies; interleaved with uses (runs, queries) of "
     "random live objects. Every live object has a recipe (its derivation path from the root spec); its observable "
@@ -46,6 +46,9 @@ def apply_op(obj, op, args):
         return obj.with_entrypoint(*args[0])
     if op == "add":
         return obj.add_nodes(make_extra(args[0], args[1]))
+    if op == "empty":
+        # the argument-less form of a derivation is a derivation too
+        return {"bind": obj.bind, "unbind": obj.unbind, "add": obj.add_nodes}[args[0]]()
     if op == "as_node":
         return obj.as_node(name=args[0])
     if op == "node":
@@ -196,6 +199,9 @@ def history(ctx, i):
         from hgmon import loops
 
         spec = loops.counter_loop(3, 0, 2, "route", True)["spec"]
+    elif rng.random() < 0.3:
+        # gates: routing state (who controls whom) is derived lazily and must not be shared with derived graphs
+        spec = gen.gen_gated(rng, deterministic=rng.random() < 0.5, n_blocks=(1, 3))
     else:
         spec = gen.gen_dag(rng, n_nodes=(3, 6), p_default_edge=0.05)
         # a nested group, so that as_node / graph nodes exist from the start
@@ -214,8 +220,14 @@ def history(ctx, i):
         op = None
         try:
             if tgt.kind == "graph":
-                choice = rng.choice(["bind", "bind", "unbind", "select", "entry", "add", "as_node", "node", "node"])
-                if choice == "bind":
+                choice = rng.choice(["bind", "bind", "unbind", "select", "entry", "add", "as_node", "node", "node", "empty"])
+                if choice == "empty":
+                    which = rng.choice(["bind", "unbind", "add"])
+                    if which == "add" and getattr(o, "_explicit_edges", None) is not None:
+                        continue
+                    op = ("empty", [which])
+                    new = apply_op(o, *op)
+                elif choice == "bind":
                     names = list(o.inputs.all)
                     if not names:
                         continue
@@ -300,7 +312,7 @@ def history(ctx, i):
         ops_done.append({"on": fmt(tgt.recipe), "op": op[0], "args": core.jsonable(op[1])})
         if new is o and op[0] != "node":
             ctx.violation("C07:returned-self", f"{op[0]} returned its receiver (receiver derived by {fmt(tgt.recipe)})", case)
-        kind = "graph" if op[0] in ("bind", "unbind", "select", "entry", "add") else "node"
+        kind = "graph" if op[0] in ("bind", "unbind", "select", "entry", "add", "empty") else "node"
         lives.append(Live(new, tgt.recipe + [op], kind))
         # interleaved use of a random live object
         if rng.random() < 0.35:
